@@ -284,6 +284,18 @@ pub fn run(ctx: &Ctx) {
         xs.push(m);
     }
     xs.extend(gen::alignment_labels());
+    // attribute-shaped text: every string of length <= 4 over {a, =, ", ;, \}
+    {
+        let mut b2 = Vec::new();
+        crate::engine::for_each_string_upto(b"a=\";\\", 4, &mut b2, &mut |x| {
+            if x.len() >= 2 {
+                xs.push(x.to_vec());
+            }
+        });
+        for s in gen::dictionary_strings() {
+            xs.push(s.as_bytes().to_vec());
+        }
+    }
     let total = std::sync::atomic::AtomicU64::new(0);
     let chunks: Vec<&[Vec<u8>]> = xs.chunks(8).collect();
     par_shards(ctx, &chunks, |xs, t: &mut Tally| {
